@@ -4,7 +4,8 @@ CONSTANTS
   Catalogue <- CatFull
   MaxOps = 4
   DeleteStopsAt = {"T"}
+  IndexStopsAt = {}
   ReuseIds = FALSE
-INVARIANTS ForestInv PatchInv WalkIsLastVersion
+INVARIANTS ForestInv PatchInv WalkIsLastVersion IndexIsFresh
 PROPERTIES OthersUntouched IdsMonotone
 CHECK_DEADLOCK FALSE
